@@ -5,6 +5,8 @@
 //	C <id> virt                       a real *nbio.Conn around a virtual descriptor (scripted kernel answers, so
 //	                                  backlogs and drains are exact) registered with a real engine; real time.AfterFunc
 //	C <id> http ka=<ms> wt=<ms>       a real nbhttp engine on a loopback socket, raw TCP client (keep-alive, WriteTimeout)
+//	C <id> dial                       real engine, DialAsyncTimeout to a live / a dead loopback port (the dial timer lives in the
+//	                                  write timer and must be cleared by a successful connect); ops dial <ms> live|refused, set, clear, close
 //	C <id> ws ka=<ms>                 the same engine with a websocket upgrader (WS keep-alive), raw client
 //	C <id> wst ka=<ms>                std http.Server + UpgradeAndTransferConnToPoller (WS keep-alive on the transferred path)
 //
@@ -66,9 +68,46 @@ type planned struct {
 	r, w int // planned absolute deadline in ms, -1 none
 }
 
+func genDial(g *lp.Gen, id int) {
+	g.P("C %d dial", id)
+	to := g.PickInt(60, 80, 120, 200)
+	last := to
+	if g.Chance(1, 4) {
+		g.P("O dial %d refused t=0", to)
+	} else {
+		g.P("O dial %d live t=0", to)
+		t := g.PickInt(5, 20, 40)
+		switch g.Intn(5) {
+		case 0: // established, idle past the dial timeout
+		case 1:
+			d := dur(g)
+			g.P("O set r %d t=%d", d, t)
+			if t+d > last {
+				last = t + d
+			}
+		case 2:
+			d := dur(g)
+			g.P("O set w %d t=%d", d, t)
+			if t+d > last {
+				last = t + d
+			}
+			if g.Chance(1, 2) {
+				g.P("O clear w t=%d", t+d/2)
+			}
+		case 3:
+			g.P("O clear w t=%d", t)
+		case 4:
+			g.P("O close t=%d", t)
+		}
+	}
+	g.P("Q g=%d t=%d", gBound(g), last+gBound(g))
+}
+
 func gen(g *lp.Gen) {
 	for i := 0; i < g.N; i++ {
 		switch {
+		case i%8 == 5:
+			genDial(g, i)
 		case g.Tier == "thorough" && i%8 == 6:
 			genHTTP(g, i)
 		case g.Tier == "thorough" && i%8 == 7:
@@ -280,6 +319,8 @@ func classify(err error) string {
 		return "rt"
 	case errors.Is(err, nbio.ErrWriteTimeout):
 		return "wt"
+	case errors.Is(err, nbio.ErrDialTimeout):
+		return "dt"
 	case errors.Is(err, nbio.ErrOverflow):
 		return "io"
 	case errors.Is(err, io.EOF):
@@ -329,13 +370,15 @@ type caseRun struct {
 }
 
 type env struct {
-	start   time.Time
-	rec     *closeRec
-	nbc     func() *nbio.Conn // the conn under observation (nil until it exists)
-	tr      track
-	cr      *caseRun
-	selfK   string // kind caused by the harness's own op (user / io), "" if none
-	wasOpen bool   // the conn was observed open just before the current op
+	start     time.Time
+	rec       *closeRec
+	nbc       func() *nbio.Conn // the conn under observation (nil until it exists)
+	tr        track
+	cr        *caseRun
+	selfK     string // kind caused by the harness's own op (user / io), "" if none
+	wasOpen   bool   // the conn was observed open just before the current op
+	dialRes   string // outcome of the last dial op (ok / err / none / fail)
+	dialTimer bool   // the write timer in force was armed by DialAsyncTimeout (its closure carries ErrDialTimeout)
 }
 
 func (e *env) us() int64 { return int64(time.Since(e.start) / time.Microsecond) }
@@ -343,6 +386,11 @@ func (e *env) us() int64 { return int64(time.Since(e.start) / time.Microsecond) 
 func (e *env) observe() obs {
 	c := e.nbc()
 	if c == nil {
+		select {
+		case <-e.rec.ch: // a dialing conn the harness has not been handed yet, already closed
+			return obs{e.rec.kind, e.rec.tc}
+		default:
+		}
 		return obs{"open", 0}
 	}
 	if !c.VerifState().Closed {
@@ -373,11 +421,12 @@ func (e *env) judge(o obs) {
 	e.tr.reported = true
 	t := &e.tr
 	switch o.kind {
-	case "rt", "wt":
+	case "rt", "wt", "dt":
 		d := 0
-		if o.kind == "wt" {
+		if o.kind != "rt" {
 			d = 1
 		}
+
 		other := 1 - d
 		if e.selfK != "" {
 			// our own close/err op ran first; a timeout notification after it is a wrong error
@@ -393,6 +442,11 @@ func (e *env) judge(o obs) {
 			} else {
 				e.oracle("c16-stale", "closed with %s at %dus although no deadline is in force for that direction", o.kind, o.tc)
 			}
+			return
+		}
+		if o.tc >= t.lo[d] && d == 1 && (o.kind == "dt") != e.dialTimer {
+			// a legitimate write-direction timeout, but with the error of the other kind of write timer
+			e.oracle("c16-error-kind", "closed with %s although the write timer in force was armed by %s", o.kind, map[bool]string{true: "DialAsyncTimeout", false: "SetWriteDeadline/SetDeadline"}[e.dialTimer])
 			return
 		}
 		if o.tc < t.lo[d] {
@@ -447,7 +501,7 @@ func atoi(s string) int { n, _ := strconv.Atoi(s); return n }
 func stripAnn(ws []string) []string {
 	var o []string
 	for _, w := range ws {
-		if strings.HasPrefix(w, "at=") || strings.HasPrefix(w, "at2=") || strings.HasPrefix(w, "st=") || strings.HasPrefix(w, "post=") {
+		if strings.HasPrefix(w, "at=") || strings.HasPrefix(w, "at2=") || strings.HasPrefix(w, "st=") || strings.HasPrefix(w, "post=") || strings.HasPrefix(w, "res=") {
 			continue
 		}
 		o = append(o, w)
@@ -479,6 +533,8 @@ func runCase(cr *caseRun) {
 	switch kind {
 	case "virt":
 		doOp, cleanup = setupVirt(e)
+	case "dial":
+		doOp, cleanup = setupDial(e)
 	case "http", "ws", "wst":
 		doOp, cleanup = setupE2E(e, kind, atoi(field(head, "ka")), atoi(field(head, "wt")))
 	default:
@@ -538,7 +594,11 @@ func runCase(cr *caseRun) {
 		t1 := e.us()
 		post := e.observe()
 		e.judge(post)
-		fmt.Fprintf(&cr.out, "> %s at=%d at2=%d st=%s post=%s\nR st=%s post=%s\n", strings.Join(ws, " "), t0, t1, st.ann(), post.ann(), st.kind, post.kind)
+		extra := ""
+		if ws[1] == "dial" {
+			extra = " res=" + e.dialRes
+		}
+		fmt.Fprintf(&cr.out, "> %s%s at=%d at2=%d st=%s post=%s\nR st=%s post=%s\n", strings.Join(ws, " "), extra, t0, t1, st.ann(), post.ann(), st.kind, post.kind)
 		shape += "|" + strings.Join(ws[1:len(ws)-1], ":") + ">" + st.kind + ">" + post.kind
 		cr.stats["op:"+ws[1]]++
 	}
@@ -692,6 +752,150 @@ func stopEngine(stop func()) {
 	select {
 	case <-done:
 	case <-time.After(10 * time.Second):
+	}
+}
+
+// ---- dial-timeout cases: DialAsyncTimeout on a real engine over loopback
+
+func setupDial(e *env) (func(ws []string), func()) {
+	g := nbio.NewEngine(nbio.Config{NPoller: 1})
+	g.OnClose(func(c *nbio.Conn, err error) { e.rec.set(classify(err), e.us()) })
+	if err := g.Start(); err != nil {
+		panic(err)
+	}
+	sink, err := net.Listen("tcp", "127.0.0.1:0")
+	if err != nil {
+		panic(err)
+	}
+	var smu sync.Mutex
+	var held []net.Conn
+	go func() {
+		for {
+			c, err := sink.Accept()
+			if err != nil {
+				return
+			}
+			smu.Lock()
+			held = append(held, c)
+			smu.Unlock()
+		}
+	}()
+	dead, err := net.Listen("tcp", "127.0.0.1:0")
+	if err != nil {
+		panic(err)
+	}
+	deadAddr := dead.Addr().String()
+	_ = dead.Close() // nobody listens there any more: connection refused
+	var mu sync.Mutex
+	var conn *nbio.Conn
+	e.nbc = func() *nbio.Conn { mu.Lock(); defer mu.Unlock(); return conn }
+	tr := &e.tr
+	do := func(ws []string) {
+		c := e.nbc()
+		switch ws[1] {
+		case "dial":
+			dd := time.Duration(atoi(ws[2])) * time.Millisecond
+			addr := sink.Addr().String()
+			if ws[3] == "refused" {
+				addr = deadAddr
+			}
+			done := make(chan error, 1)
+			t0 := e.us()
+			err := g.DialAsyncTimeout("tcp", addr, dd, func(c *nbio.Conn, err error) {
+				mu.Lock()
+				if c != nil {
+					conn = c
+				}
+				mu.Unlock()
+				done <- err
+			})
+			t1 := e.us()
+			res := "none"
+			if err != nil {
+				res = "fail"
+			} else {
+				e.dialTimer = true
+				tr.set(1, t0+int64(dd/time.Microsecond), t1+int64(dd/time.Microsecond), t1)
+				if ws[3] == "refused" {
+					// whatever the callback claims (the dial path's reporting is C03's business), a refused connect
+					// ends the conn with an I/O error; wait for that
+					e.selfK = "io"
+					select {
+					case <-e.rec.ch:
+						res = "err"
+					case <-time.After(150 * time.Millisecond):
+					}
+				} else {
+					select {
+					case cerr := <-done:
+						if cerr == nil {
+							res = "ok"
+							// connect succeeded: the dial timer must be gone
+							tr.clear(1, t0)
+							e.dialTimer = false
+						} else {
+							res = "err"
+							e.selfK = "io"
+						}
+					case <-time.After(150 * time.Millisecond):
+					}
+				}
+			}
+			e.dialRes = res
+		case "set":
+			if c == nil {
+				return
+			}
+			d := dirIdx(ws[2])
+			dd := time.Duration(atoi(ws[3])) * time.Millisecond
+			t0 := e.us()
+			if d == 0 {
+				_ = c.SetReadDeadline(time.Now().Add(dd))
+			} else {
+				_ = c.SetWriteDeadline(time.Now().Add(dd))
+			}
+			t1 := e.us()
+			if e.wasOpen {
+				tr.set(d, t0+int64(dd/time.Microsecond), t1+int64(dd/time.Microsecond), t1)
+			}
+		case "clear":
+			if c == nil {
+				return
+			}
+			d := dirIdx(ws[2])
+			if d == 0 {
+				_ = c.SetReadDeadline(time.Time{})
+			} else {
+				_ = c.SetWriteDeadline(time.Time{})
+			}
+			if e.wasOpen {
+				tr.clear(d, e.us())
+				if d == 1 {
+					e.dialTimer = false
+				}
+			}
+		case "close":
+			if c == nil {
+				return
+			}
+			if !c.VerifState().Closed {
+				e.selfK = "user"
+			}
+			_ = c.Close()
+		case "wait":
+		}
+	}
+	return do, func() {
+		if c := e.nbc(); c != nil {
+			_ = c.Close()
+		}
+		_ = sink.Close()
+		smu.Lock()
+		for _, c := range held {
+			_ = c.Close()
+		}
+		smu.Unlock()
+		stopEngine(func() { g.Stop() })
 	}
 }
 
